@@ -1,0 +1,24 @@
+//go:build verif
+
+package vgirpc
+
+import "fmt"
+
+// Verification hooks (build tag "verif") for the response-cap property.
+// Add-only thin wrappers; nothing here is compiled into normal builds.
+
+// VerifC19ResultBufferSize serializes value as the result batch of the named
+// unary method and reports its in-memory Arrow buffer size — the figure the
+// external-cap pre-flight predicts with.
+func (s *Server) VerifC19ResultBufferSize(method string, value interface{}) (int64, error) {
+	info, ok := s.methods[method]
+	if !ok {
+		return 0, fmt.Errorf("unknown method %q", method)
+	}
+	batch, err := serializeResult(info.ResultSchema, value)
+	if err != nil {
+		return 0, err
+	}
+	defer batch.Release()
+	return batchBufferSize(batch), nil
+}
